@@ -39,91 +39,119 @@ def _linear(p):
 
 
 def decoder_constants(lib, R):
-    """Constants of the C++ decoders, derived from their normal forms."""
+    """Constants of the C++ decoders, derived from their *value tables*: each decoder is folded through its real body
+    (constant propagation, typed: every conversion and read wraps to its width) over its whole argument domain - all 256
+    byte values of the packed argument, a spread of code values - and fitted to the affine / mask form the encoder pairs
+    with.  How the body spells the form (&, %, shifts before or after masking, operand order, named locals) is immaterial;
+    a body that is not of the form is reported with the first argument values where it deviates."""
+    from .ceval import CEval
     d = {}
-    # timeCodeToMinutes(code, modifier) = K*code + fmod(modifier, M)
-    f, p = _cxx_summary(lib, 'ace_time::internal::timeCodeToMinutes', 2)
-    lin = _linear(p)
-    ok = False
-    if lin is not None:
-        terms, c = lin
-        code = terms.get(('sym', f.params[0][0]))
-        masks = [a for a in terms if a[0] == 'fmod' and _P(a[1]) == Poly.atom(('sym', f.params[1][0])) and _P(a[2]).is_const()]
-        if code and len(masks) == 1 and terms[masks[0]] == 1 and c == 0 and len(terms) == 2:
-            d['time_K'] = code
-            d['time_minute_mod'] = _P(masks[0][2]).const_value()
-            ok = True
+    ev = CEval(lib)
+
+    memo = {}
+
+    def fold(f, *args):
+        k = (f.name, args)
+        if k not in memo:
+            try:
+                memo[k] = ev.call(f, None, args)
+            except Exception as ex:
+                raise AnalysisError('%s: decoder cannot be folded on %r (%s)' % (f.loc, args, ex))
+        return memo[k]
+
+    def mask_of(g, width=8):
+        """g: byte -> int is  (x & MASK) scaled: returns MASK when g(x) == g(x & MASK) and bits outside do not matter"""
+        m = 0
+        for b in range(width):
+            if any(g(x) != g(x ^ (1 << b)) for x in range(1 << width)):
+                m |= 1 << b
+        return m
+    # timeCodeToMinutes(code, modifier) = K*code + (modifier & mm)
+    f = lib.fn('ace_time::internal::timeCodeToMinutes')
     d['time_loc'] = f.loc
-    if not ok:
-        d['time_form'] = repr(p)
+    base = fold(f, 0, 0)
+    K = fold(f, 1, 0) - base
+    mm = mask_of(lambda m: fold(f, 0, m))
+    bad = None
+    for c in (0, 1, 2, 47, 95, 96, 100, 127):
+        for m in range(256):
+            if fold(f, c, m) != K * c + (m & mm):
+                bad = (c, m, fold(f, c, m), K * c + (m & mm))
+                break
+        if bad:
+            break
+    if bad is None and base == 0 and K > 0 and gnf.is_pow2(mm + 1):
+        d['time_K'], d['time_minute_mod'] = K, mm + 1
+    else:
+        d['time_form'] = 'timeCodeToMinutes(%s, %s) = %s, not %s' % bad if bad else 'K = %d, minute mask 0x%02x' % (K, mm)
     # toSuffix(modifier) = modifier & MASK
-    f, p = _cxx_summary(lib, 'ace_time::internal::toSuffix', 1)
-    a = _single_atom(p)
+    f = lib.fn('ace_time::internal::toSuffix')
     d['suffix_loc'] = f.loc
-    if a is not None and a[0] == 'and':
-        ks = [_P(a[1]), _P(a[2])]
-        cs = [k.const_value() for k in ks if k.is_const()]
-        if len(cs) == 1:
-            d['suffix_mask'] = cs[0]
-    elif a is not None and a[0] == 'fmod':
-        d['suffix_mask'] = _P(a[2]).const_value() - 1
-    if 'suffix_mask' not in d:
-        d['suffix_form'] = repr(p)
-    # extended::toDeltaMinutes(deltaCode) = K*fmod(deltaCode, M) - K*B
-    f, p = _cxx_summary(lib, 'ace_time::extended::toDeltaMinutes', 1)
+    sm = mask_of(lambda m: fold(f, m))
+    bad = next(((m, fold(f, m)) for m in range(256) if fold(f, m) != (m & sm)), None)
+    if bad is None:
+        d['suffix_mask'] = sm
+    else:
+        d['suffix_form'] = 'toSuffix(%d) = %d, not %d' % (bad[0], bad[1], bad[0] & sm)
+    # extended::toDeltaMinutes(deltaCode) = K*((deltaCode & dm) - B)     (deltaCode is the stored signed byte)
+    f = lib.fn('ace_time::extended::toDeltaMinutes')
     d['delta_loc'] = f.loc
-    lin = _linear(p)
-    if lin is not None:
-        terms, c = lin
-        ms = [a for a in terms if a[0] == 'fmod' and _P(a[2]).is_const()]
-        if len(ms) == 1 and len(terms) == 1:
-            K = terms[ms[0]]
-            if K and c % K == 0:
-                d['delta_K'] = K
-                d['delta_mod'] = _P(ms[0][2]).const_value()
-                d['delta_bias'] = -c // K
+    dom = list(range(-128, 128))
+    g = lambda x: fold(f, x if x < 128 else x - 256)
+    dm = mask_of(g)
+    K = g(1) - g(0)
+    bad = None
+    if K and g(0) % K == 0:
+        B = -g(0) // K
+        bad = next(((x, fold(f, x)) for x in dom if fold(f, x) != K * (((x & 0xff) & dm) - B)), None)
+        if bad is None and gnf.is_pow2(dm + 1):
+            d['delta_K'], d['delta_mod'], d['delta_bias'] = K, dm + 1, B
     if 'delta_K' not in d:
-        d['delta_form'] = repr(p)
-    # extended::toOffsetMinutes(offsetCode, deltaCode) = K*offsetCode + fdiv(and(deltaCode, MASK), S)
-    f, p = _cxx_summary(lib, 'ace_time::extended::toOffsetMinutes', 2)
+        d['delta_form'] = ('toDeltaMinutes(%d) = %d' % bad) if bad else 'step %d, value at 0 %d, mask 0x%02x' % (K, g(0), dm)
+    # extended::toOffsetMinutes(offsetCode, deltaCode) = K*offsetCode + ((deltaCode & MASK) >> S)
+    f = lib.fn('ace_time::extended::toOffsetMinutes')
     d['offset_loc'] = f.loc
-    lin = _linear(p)
-    if lin is not None:
-        terms, c = lin
-        K = terms.get(('sym', f.params[0][0]))
-        sh = [a for a in terms if a[0] == 'fdiv' and _P(a[2]).is_const()]
-        # the other spelling of the same nibble: (deltaCode >> S) & M  ==  fmod(fdiv(deltaCode, 2^S), M + 1)
-        alt = [a for a in terms if a[0] == 'fmod' and _P(a[2]).is_const() and _single_atom(_P(a[1])) is not None
-               and _single_atom(_P(a[1]))[0] == 'fdiv' and _P(_single_atom(_P(a[1]))[2]).is_const()]
-        if K and len(alt) == 1 and terms[alt[0]] == 1 and c == 0 and len(terms) == 2:
-            inner = _single_atom(_P(alt[0][1]))
-            S_ = _P(inner[2]).const_value()
-            M_ = _P(alt[0][2]).const_value()
-            if _P(inner[1]) == Poly.atom(('sym', f.params[1][0])) and gnf.is_pow2(S_) and gnf.is_pow2(M_):
-                d['offset_K'] = K
-                d['offset_shift_div'] = S_
-                d['offset_mask'] = (M_ - 1) * S_
-        if K and len(sh) == 1 and terms[sh[0]] == 1 and c == 0 and len(terms) == 2:
-            inner = _single_atom(_P(sh[0][1]))
-            if inner is not None and inner[0] == 'and':
-                cs = [_P(x).const_value() for x in (inner[1], inner[2]) if _P(x).is_const()]
-                if len(cs) == 1:
-                    d['offset_K'] = K
-                    d['offset_shift_div'] = _P(sh[0][2]).const_value()
-                    d['offset_mask'] = cs[0]
+    K = fold(f, 1, 0) - fold(f, 0, 0)
+    h = lambda x: fold(f, 0, x if x < 128 else x - 256)
+    om = mask_of(h)
+    bad = None
+    if om and K > 0 and fold(f, 0, 0) == 0:
+        S = om & -om            # lowest set bit: the shift divisor
+        for c in (-48, -1, 0, 1, 56):
+            for x in dom:
+                if fold(f, c, x) != K * c + (((x & 0xff) & om) // S):
+                    bad = (c, x, fold(f, c, x))
+                    break
+            if bad:
+                break
+        if bad is None:
+            d['offset_K'], d['offset_shift_div'], d['offset_mask'] = K, S, om
     if 'offset_K' not in d:
-        d['offset_form'] = repr(p)
-    # basic brokers: 15 * code
-    for acc, key in (('ace_time::basic::ZoneRuleBroker::deltaMinutes', 'basic_rule_delta_K'),
-                     ('ace_time::basic::ZoneEraBroker::deltaMinutes', 'basic_era_delta_K'),
-                     ('ace_time::basic::ZoneEraBroker::offsetMinutes', 'basic_era_offset_K')):
-        f, p = _cxx_summary(lib, acc, 0)
-        lin = _linear(p)
+        d['offset_form'] = ('toOffsetMinutes(%d, %d) = %d' % bad) if bad else 'step %d, mask 0x%02x' % (K, om)
+    # basic brokers: K * code, read through the broker from a one-field record
+    from .ceval import Obj
+    from .rules_C12 import typed_obj, broker_field
+    for acc, key, struct, field in (('ace_time::basic::ZoneRuleBroker::deltaMinutes', 'basic_rule_delta_K', 'ZoneRule', 'deltaCode'),
+                                    ('ace_time::basic::ZoneEraBroker::deltaMinutes', 'basic_era_delta_K', 'ZoneEra', 'deltaCode'),
+                                    ('ace_time::basic::ZoneEraBroker::offsetMinutes', 'basic_era_offset_K', 'ZoneEra', 'offsetCode')):
+        f = lib.fn(acc)
         d[key + '_loc'] = f.loc
-        if lin is not None and len(lin[0]) == 1 and lin[1] == 0:
-            d[key] = list(lin[0].values())[0]
+        bq = acc.rsplit('::', 1)[0]
+        bf = broker_field(lib, bq)
+        vals = {}
+        try:
+            for code in (-8, -1, 0, 1, 2, 7, 56):
+                cells = {n: 0 for n, _t, _x in lib.fields('ace_time::basic::' + struct)}
+                cells[field] = code
+                vals[code] = ev.call(f, Obj({bf: typed_obj(lib, 'ace_time::basic::' + struct, cells)}), ())
+        except Exception as ex:
+            d[key + '_form'] = 'cannot be folded (%s)' % ex
+            continue
+        K = vals[1] - vals[0]
+        if vals[0] == 0 and K and all(v == K * c for c, v in vals.items()):
+            d[key] = K
         else:
-            d[key + '_form'] = repr(p)
+            d[key + '_form'] = 'values %r' % vals
     return d
 
 
@@ -154,6 +182,12 @@ def _lin_of_template(node, nholes):
         return {}, node.value
     if isinstance(node, ast.Name) and re.match(r'^v\d+$', node.id):
         return {int(node.id[1:]): 1}, 0
+    if isinstance(node, ast.UnaryOp) and isinstance(node.op, (ast.UAdd, ast.USub)):
+        l = _lin_of_template(node.operand, nholes)
+        if l is None:
+            return None
+        s = 1 if isinstance(node.op, ast.UAdd) else -1
+        return {k: s * v for k, v in l[0].items()}, s * l[1]
     if isinstance(node, ast.BinOp):
         l = _lin_of_template(node.left, nholes)
         r = _lin_of_template(node.right, nholes)
@@ -178,6 +212,7 @@ def _lin_of_template(node, nholes):
 def _py_summary(mod, name):
     f = mod.fn(name)
     sx = SymExec(lang='py')
+    sx.tables = mod.table_elems          # `for a, b in SOME_TABLE:` over a module-level constant table is unrolled
     return f, sx.run(name, f.body, {})
 
 
@@ -288,10 +323,14 @@ def encoder_rules(cfg, R, lib):
                 tree, holes, text = _template_expr(fs[0])
                 lin = _lin_of_template(tree, len(holes)) if tree is not None else None
                 # the emitted text is "<modifier> + {timeMinute}": unary plus parses as +v0
-                if tree is None or len(holes) != 1:
+                # ... or, when the whole modifier is one template, "<suffix constant> + <minute>" with the suffix as a hole
+                rems = [h for h in holes if _single_atom(h) is not None and _single_atom(h)[0] == 'fdiv']
+                rest = [h for h in holes if h not in rems]
+                rest_ok = all(_single_atom(h) is not None and _single_atom(h)[0] == 'fn' and _single_atom(h)[1].endswith('_to_modifier') for h in rest)
+                if tree is None or len(rems) != 1 or not rest_ok or lin is None or any(v != 1 for v in lin[0].values()) or lin[1] != 0:
                     ok, msg = False, 'minute remainder is not appended as " + <minute>" (%r)' % text
                     break
-                rem = holes[0]
+                rem = rems[0]
                 ra = _single_atom(rem)
                 good = (ra is not None and ra[0] == 'fdiv' and _P(ra[2]).const_value() == 60)
                 inner = _single_atom(_P(ra[1])) if good else None
